@@ -87,9 +87,27 @@ def _other_type(draw, v):
 
 
 # ----------------------------------------------------------------------------------------------
+TYPED_ZOO = {
+    "float": ["nan", "inf", "-inf", "float_subclass", "float_max", "float_tiny", "-0.0"],
+    "int": ["true", "false", "int_2_64", "int_neg_2_64", "int_10_400", "int_neg_10_400", "int_subclass"],
+    "bool": ["true", "false", "int_subclass"],
+    "str": ["str_subclass", "str_surrogate", "str_nul", "str_long", "empty_str"],
+    "bytes": ["bytes_subclass", "bytes_long", "bytearray", "memoryview"],
+    "list": ["list_subclass", "list_nested", "empty_list", "tuple", "range"],
+    "dict": ["dict_subclass", "ordereddict", "defaultdict", "dict_nonstr_keys", "empty_dict"],
+    "uuid4": ["uuid1", "uuid3", "uuid5", "uuid_nil", "uuid4"],
+    "datetime": ["datetime_aware", "datetime_naive", "datetime_min", "datetime_max", "date_max", "time"],
+    "date": ["datetime_naive", "datetime_aware", "date_min", "date_max", "datetime_max"],
+    "none": ["nil", "ellipsis", "notimplemented", "false"],
+}
+
+
 def _gen(draw, spec, mut):
     t = spec["t"]
     near = mut is not None
+    if near and getattr(mut, "zoo", False) and t in TYPED_ZOO and mut.take(draw, "zoo:" + t):
+        # a hostile value that passes (or nearly passes) this node's type guard
+        return Zoo(draw(st.sampled_from(TYPED_ZOO[t])))
     if t == "none":
         if near and mut.take(draw, "none:other"):
             return draw(st.sampled_from([False, 0, "", [], "None", 0.0]))
@@ -447,6 +465,17 @@ def conforming(draw, spec):
 def near_multi(draw, spec, budget=3):
     """(value, n_applied): conforming except for up to `budget` near-miss steps at drawn nodes."""
     m = Mut(budget, eager=True)
+    v = _gen(draw, spec, m)
+    return v, budget - m.budget
+
+
+@st.composite
+def typed_zoo(draw, spec, budget=2):
+    """(value, n): conforming value with up to `budget` hostile zoo objects placed at nodes whose
+    type guard they pass (inf/nan under float, bool and huge ints under int, subclasses, non-v4
+    UUIDs under uuid4, datetime under date...)."""
+    m = Mut(budget, eager=True)
+    m.zoo = True
     v = _gen(draw, spec, m)
     return v, budget - m.budget
 
